@@ -48,6 +48,7 @@ type Work struct {
 	NoTrail  bool   `json:"no_trail,omitempty"` // no trailing tick(): the wrapped program is the script's last statement
 	Elem     string `json:"elem,omitempty"`     // element type of the channels the blocked cores use (default int64)
 	Deadline bool   `json:"deadline,omitempty"` // the context also carries a deadline far in the future (a WithTimeout context cancelled early)
+	Merged   bool   `json:"merged,omitempty"`   // the context is the host's own type: Done / Err of its own, Value delegated to a live standard cancel context
 	LibCtx   int    `json:"lib_ctx,omitempty"`  // how the earlier run that defined the library was made: 0 cancellable context (never cancelled), 1 context.Background(), 2 vm.Execute, 3 vm.Execute with nil options
 }
 
@@ -481,6 +482,7 @@ func (Prop) Gen(seed int64, tier string) *harness.Case {
 		w.LibCtx = r.Intn(4)
 	}
 	w.Deadline = r.Intn(4) == 0
+	w.Merged = r.Intn(4) == 0
 	depth := r.Intn(4)
 	if r.Intn(8) == 0 {
 		depth = 4 + r.Intn(2)
@@ -631,6 +633,11 @@ func run(t *testing.T, c *harness.Case, verbose bool, onlyDefers bool) *harness.
 		ctx = sim.NewCtx()
 		if w.Deadline {
 			ctx.FarDeadline = time.Now().Add(time.Hour)
+		}
+		if w.Merged {
+			live, stop := context.WithCancel(context.Background())
+			defer stop()
+			ctx.ValueParent = live
 		}
 		e := env.NewEnv()
 		rec := func(deferred bool) {
